@@ -162,6 +162,29 @@ pub fn fixture_weighted(r: &mut Rng) -> Model {
     m
 }
 
+/// One of the isize-weighted fixtures, including the two that exist only
+/// with isize weights (negative arcs).
+pub fn fixture_weighted_isize(r: &mut Rng) -> Model {
+    use graaf::repr::adjacency_list_weighted::fixture as f;
+    use graaf::{ArcsWeighted, Order};
+    let d = match r.below(9) {
+        0 => f::bang_jensen_94_isize(),
+        1 => f::bang_jensen_96_isize(),
+        2 => f::bang_jensen_99(),
+        3 => f::kattis_bryr_1_isize(),
+        4 => f::kattis_bryr_2_isize(),
+        5 => f::kattis_bryr_3_isize(),
+        6 => f::kattis_crosscountry_isize(),
+        7 => f::kattis_shortestpath1_isize(),
+        _ => f::kattis_shortestpath3(),
+    };
+    let mut m = Model::new(d.order());
+    for (u, v, w) in d.arcs_weighted() {
+        m.arcs.insert((u, v), *w as i64);
+    }
+    m
+}
+
 /// About `k` arcs per vertex, any order.
 pub fn sparse_random(r: &mut Rng, n: usize, k: usize) -> Model {
     let mut m = Model::new(n);
